@@ -64,11 +64,11 @@ std::vector<PropSpec> const& props()
             "paired runs: non-finite values injected at seeded calls vs. the same calls returning zero; non-trivial = at least one injected non-finite evaluation fired; distinct = distinct plan shape hashes"},
         {"C07", {{"grid", 70}, {"history", 15}, {"restart", 15}}, 18000, 720000, "exploration",
             "VEGAS runs with long refinement histories plus direct probes (u == 1, hand made data); invariants on every grid and point, equal-share bracket against a long double reference; non-trivial = every grid plan; distinct = distinct plan shape hashes"},
-        {"C08", {{"weights", 55}, {"history", 20}, {"mpi", 13}, {"restart", 12}}, 60000, 2400000, "exploration",
+        {"C08", {{"weights", 50}, {"history", 18}, {"mpi", 12}, {"restart", 10}, {"rollback", 10}}, 60000, 2400000, "exploration",
             "multi-channel runs with up to 40 refinements plus direct probes of the refinement; probability-vector invariants and reference model; distinct = distinct plan shape hashes"},
         {"C09", {{"select", 70}, {"history", 30}}, 14000, 560000, "exploration",
             "selector draws forced to 0, largest-below-1, every cumulative boundary and neighbours, mid points; inside runs and on the selector type directly; distinct = distinct plan shape hashes"},
-        {"C10", {{"usage", 30}, {"history", 50}, {"poison", 20}}, 60000, 2400000, "exploration",
+        {"C10", {{"usage", 28}, {"history", 42}, {"poison", 18}, {"mpi", 12}}, 60000, 2400000, "exploration",
             "draw counter per call under all engines and faults, stored generator vs. discard, engines with odd ranges against the predictor; distinct = distinct plan shape hashes"},
         {"C11", {{"bins", 60}, {"restart", 12}, {"mpi", 13}, {"poison", 15}}, 40000, 1600000, "exploration",
             "projector adds logged and re-binned by an independent long double reference (conservation per bin, edges ambiguous within one rounding error), probe coordinates on edges / outside / non-finite; distinct = distinct plan shape hashes"},
@@ -82,7 +82,7 @@ std::vector<PropSpec> const& props()
             "per-call protocol state machine inside scripted map and integrand; distinct = distinct plan shape hashes"},
         {"C18", {{"fscrash", 100}}, 25000, 1000000, "fault_enumeration",
             "one traced execution per plan, every file system event boundary and byte prefix of every write evaluated as kill point (quick: all prefixes of writes up to 512 bytes, else first/last 64, 4096-byte boundaries and 256 seeded offsets); plus executed sequences of up to four kills and restarts; distinct = distinct plan shape hashes"},
-        {"C19", {{"history", 40}, {"restart", 30}, {"mpi", 30}}, 10000, 400000, "exploration",
+        {"C19", {{"history", 35}, {"restart", 25}, {"mpi", 25}, {"rollback", 15}}, 10000, 400000, "exploration",
             "bitwise chain of recorded states against the library's own refinement, points recomputed from the recorded state under the scripted engine; distinct = distinct plan shape hashes"},
         {"C20", {{"modes", 100}}, 16000, 640000, "exploration",
             "the same plan under all four callback modes (serial and shim-MPI), with disk faults and failing std::cout; distinct = distinct plan shape hashes"},
@@ -110,7 +110,7 @@ std::vector<std::string> expected_reach(std::string const& id)
         {"C15", {"rollback", "rollback-noop", "rollback-to-zero", "rollback-too-large", "rollback-after-reload", "reload"}},
         {"C16", {"empty-share", "split-communicator"}},
         {"C17", {"lazy-densities-skipped", "canonical-zero"}},
-        {"C18", {"crash-states", "fault:short-write", "fault:eintr", "fault:open-fails", "fault:kill-at-fs-event", "fault:kill-at-call"}},
+        {"C18", {"crash-states", "fault:short-write", "fault:eintr", "fault:open-fails", "fault:kill-at-fs-event", "fault:kill-at-call", "fault:descheduled-before-file-system-call"}},
         {"C19", {"fault:clean-interruption", "fault:restart-before-first-iteration", "empty-share"}},
         {"C20", {"fault:short-write", "fault:io-error", "fault:cout-fail", "summary-many-channels"}},
     };
@@ -895,7 +895,9 @@ int run_main(std::string const& self, std::string const& prop, int tier, u64 see
     std::vector<std::string> lines;
     std::vector<std::string> known_lines;
 
-    std::set<std::string> reported_tags;
+    // candidates per oracle tag: the first finding of every (tag, key) that is not a known finding, in
+    // run order. The first candidate that passes the gates is reported; one violation per tag.
+    std::map<std::string, std::vector<Agg::F>> per_tag;
 
     for (auto const& pr : firsts)
     {
@@ -915,8 +917,36 @@ int run_main(std::string const& self, std::string const& prop, int tier, u64 see
             }
         }
         if (is_known) continue;
-        if (reported_tags.count(f.tag)) continue;   // one violation per oracle tag
-        reported_tags.insert(f.tag);
+        per_tag[f.tag].push_back(f);
+    }
+
+    // more candidates: later runs with the same (tag, key); a finding that depends on what the worker
+    // ran before (state that a mutated library keeps in the process) does not replay, another one may
+    for (auto const& f : agg.findings)
+    {
+        if (f.prop != prop) continue;
+        auto it = per_tag.find(f.tag);
+        if (it == per_tag.end()) continue;
+        bool dup = false, key_ok = false;
+        for (auto const& g : it->second)
+        {
+            if (g.idx == f.idx) dup = true;
+            if (g.key == f.key) key_ok = true;
+        }
+        if (!dup && key_ok && it->second.size() < 6) it->second.push_back(f);
+    }
+
+    for (auto& pt : per_tag)
+    {
+        std::sort(pt.second.begin(), pt.second.end(), [](Agg::F const& a, Agg::F const& b) { return a.idx < b.idx; });
+        if (pt.second.size() > 4) pt.second.resize(4);
+
+        bool reported = false;
+        std::vector<std::string> mach;
+
+        for (auto const& f : pt.second)
+        {
+        if (reported) break;
 
         // the plan of this run
         Plan p;
@@ -945,9 +975,8 @@ int run_main(std::string const& self, std::string const& prop, int tier, u64 see
             ChildOut const c = exec_forked(p, prop, f.tag, 2);
             if (c.crashed || !c.same || !c.hit)
             {
-                std::printf("MACHINERY: property=%s tag=%s run %llu does not reproduce (crashed=%d same=%d hit=%d)\n",
-                    prop.c_str(), f.tag.c_str(), (unsigned long long) f.idx, c.crashed, c.same, c.hit);
-                ++machinery;
+                mach.push_back(fmt("MACHINERY: property=%s tag=%s run %llu does not reproduce (crashed=%d same=%d hit=%d)",
+                    prop.c_str(), f.tag.c_str(), (unsigned long long) f.idx, c.crashed, c.same, c.hit));
                 continue;
             }
         }
@@ -966,17 +995,24 @@ int run_main(std::string const& self, std::string const& prop, int tier, u64 see
         int const rc = replay_in_child(binary, file, prop, f.tag, &out);
         if (crash ? !crash_code(rc) : rc != 1)
         {
-            std::printf("MACHINERY: property=%s tag=%s replay of %s in a fresh process gave exit %d\n%s\noriginal finding (run %llu): %s\n", prop.c_str(),
-                f.tag.c_str(), file.c_str(), rc, out.c_str(), (unsigned long long) f.idx, f.detail.c_str());
-            ++machinery;
+            mach.push_back(fmt("MACHINERY: property=%s tag=%s replay of %s in a fresh process gave exit %d\n%s\noriginal finding (run %llu): %s", prop.c_str(),
+                f.tag.c_str(), file.c_str(), rc, out.c_str(), (unsigned long long) f.idx, f.detail.c_str()));
+            std::remove(file.c_str());
             continue;
         }
 
+        reported = true;
         ++violations;
         lines.push_back(fmt("VIOLATION property=%s replay=%s", prop.c_str(), file.c_str()));
         lines.push_back(fmt("  oracle=%s key=%s run=%llu scenario=%s minimised-in=%d", f.tag.c_str(), f.key.c_str(),
             (unsigned long long) f.idx, p.scn.c_str(), attempts));
         lines.push_back("  " + f.detail);
+        }
+
+        // findings of this tag that did not replay: a machinery failure if none of the candidates did,
+        // a note otherwise (the reported one stands on its own replay)
+        for (auto const& m : mach) std::printf("%s%s\n", reported ? "NOTE (another run with the same oracle tag replays): " : "", m.c_str());
+        if (!reported) ++machinery;
     }
 
     // ---- evidence
@@ -1083,9 +1119,11 @@ int run_main(std::string const& self, std::string const& prop, int tier, u64 see
         (void) pz;
     }
 
-    if (machinery != 0) return 2;
     if (agg.evaluations == 0) return 2;
-    return violations != 0 ? 1 : 0;
+    // a violation that passed every gate stands on its own replay file; findings that did not replay
+    // are machinery failures and make the check fail as well (exit 2) when nothing else was confirmed
+    if (violations != 0) return 1;
+    return machinery != 0 ? 2 : 0;
 }
 
 // ------------------------------------------------------------------------------------------------
